@@ -204,8 +204,8 @@ func (fs *FS) OpenFile(name string, flag int, perm hackpadfs.FileMode) (afFile h
 		if flag&hackpadfs.FlagCreate != 0 && flag&hackpadfs.FlagExclusive != 0 {
 			return nil, &hackpadfs.PathError{Op: "open", Path: name, Err: hackpadfs.ErrExist}
 		}
-		if storeFile.info().IsDir() && flag&(hackpadfs.FlagCreate|hackpadfs.FlagWriteOnly) != 0 {
-			// write-only or create on a directory isn't allowed on hackpadfs.OpenFile
+		if storeFile.info().IsDir() && flag&(hackpadfs.FlagCreate|hackpadfs.FlagWriteOnly|hackpadfs.FlagReadWrite|hackpadfs.FlagTruncate) != 0 {
+			// writing, creating or truncating a directory isn't allowed on hackpadfs.OpenFile
 			return nil, &hackpadfs.PathError{Op: "open", Path: name, Err: hackpadfs.ErrIsDir}
 		}
 		storeFile.flag = flag
